@@ -1512,8 +1512,12 @@ class Vmap(Generic[X, R], GFI[X, R]):
             merged, discarded = modular_vmap(self.gen_fn.merge, in_axes=(0, 0, None))(
                 x, x_, None
             )
+        elif jnp.ndim(check) == 0:
+            # A check without a batch axis (the condition of a Cond whose branches
+            # are vectorized) applies to every lane alike
+            merged, discarded = self.gen_fn.merge(x, x_, check)
         else:
-            # Check should be broadcast across the batch dimension
+            # A batched check selects lane by lane
             merged, discarded = modular_vmap(self.gen_fn.merge, in_axes=(0, 0, 0))(
                 x, x_, check
             )
